@@ -479,4 +479,104 @@ theorem noNestedSuffix_of_check {S : RSet} (h : noNestedSuffixB S = true) : NoNe
     · intro hs; rw [← List.isSuffixOf_iff_suffix] at hs; rw [hs] at this; exact absurd this.1 (by simp)
     · intro hs; rw [← List.isSuffixOf_iff_suffix] at hs; rw [hs] at this; exact absurd this.2 (by simp)
 
+
+/-! ### the most specific matching pattern is unique -/
+
+/-- A catch-all ends the route. -/
+def StarLast : List Tok → Prop
+  | [] => True
+  | .star :: ts => ts = []
+  | _ :: ts => StarLast ts
+
+theorem toksGo_starLast : ∀ (fuel : Nat) (r : Rt), StarLast (toksGo fuel r) := by
+  intro fuel
+  induction fuel with
+  | zero => intro r; simp [toksGo, StarLast]
+  | succ n ih =>
+    intro r
+    cases r with
+    | nil => simp [toksGo, StarLast]
+    | cons b rest =>
+      simp only [toksGo]
+      split
+      · split
+        · simp [StarLast]
+        · simp only [StarLast]; exact ih _
+      · simp only [StarLast]; exact ih _
+
+theorem toks_starLast (route : List Char) : StarLast (toks route) := by
+  unfold toks
+  split
+  · exact toksGo_starLast _ _
+  · simp [StarLast]
+
+theorem specGE_antisymm : ∀ (a b : List Tok) (p : List Char), matchTok a p = true → matchTok b p = true →
+    specGE a b = true → specGE b a = true → StarLast a → StarLast b → a = b := by
+  intro a
+  induction a with
+  | nil =>
+    intro b p ha hb _ _ _ _
+    cases p with
+    | nil => exact (matchTok_nil_right hb).symm
+    | cons y p => simp at ha
+  | cons x as ih =>
+    intro b p ha hb h1 h2 sa sb
+    cases b with
+    | nil =>
+      cases p with
+      | nil => exact absurd (matchTok_nil_right ha) (by simp)
+      | cons y p => simp at hb
+    | cons y bs =>
+      by_cases hxy : x = y
+      · subst hxy
+        cases x with
+        | c ch =>
+          cases p with
+          | nil => simp at ha
+          | cons z p =>
+            simp at ha hb
+            rw [specGE_c_c] at h1 h2
+            rw [ih bs p ha.2 hb.2 h1 h2 sa sb]
+        | par s =>
+          rw [matchTok_par] at ha hb
+          simp at ha hb
+          rw [specGE_par_par] at h1 h2
+          rw [ih bs _ ha.2 hb.2 h1 h2 sa sb]
+        | star =>
+          simp only [StarLast] at sa sb
+          rw [sa, sb]
+      · exfalso
+        cases x with
+        | c ch =>
+          cases y with
+          | c ch' =>
+            cases p with
+            | nil => simp at ha
+            | cons z p =>
+              simp at ha hb
+              exact hxy (by rw [ha.1, hb.1])
+          | par s => simp [specGE, Tok.rank] at h2
+          | star => simp [specGE, Tok.rank] at h2
+        | par s =>
+          cases y with
+          | c ch' => simp [specGE, Tok.rank] at h1
+          | par s' =>
+            rw [matchTok_par] at ha hb
+            simp at ha hb
+            have hne : ¬ (Tok.par s = Tok.par s') := hxy
+            have hne' : ¬ (Tok.par s' = Tok.par s) := fun e => hxy e.symm
+            simp [specGE, Tok.rank, hne, hne'] at h1 h2
+            have hlen : s.length = s'.length := by omega
+            have f1 := (fits_iff.mp ha.1).2
+            have f2 := (fits_iff.mp hb.1).2
+            rcases List.suffix_or_suffix_of_suffix f1 f2 with e | e
+            · exact hxy (by rw [e.eq_of_length hlen])
+            · exact hxy (by rw [e.eq_of_length hlen.symm])
+          | star => simp [specGE, Tok.rank] at h2
+        | star =>
+          cases y with
+          | c ch' => simp [specGE, Tok.rank] at h1
+          | par s' => simp [specGE, Tok.rank] at h1
+          | star => exact hxy rfl
+
 end Pxv.Matchit
